@@ -143,7 +143,7 @@ Proof.
   intros [WS CO] NE H c. simpl in H.
   destruct (gets st d) as [ds|] eqn:GD; cbn [bind] in H; [|discriminate].
   destruct (gets st s) as [ss|] eqn:GS; cbn [bind] in H; [|discriminate].
-  assert (Nat.eqb d s = false) as EB by (apply Nat.eqb_neq; auto). rewrite EB in H.
+
   destruct ds as [c0|m]; [|discriminate].
   pose proof (gets_lt _ _ _ GD) as LD. pose proof (gets_lt _ _ _ GS) as LS.
   apply gets_ok in GD. apply gets_ok in GS.
